@@ -130,6 +130,18 @@ def replay_db_view(inputs, obl):
                 problems.append(f"{'query; ' if first else ''}insert {iname}; {rn}; query; insert; {rn}; query: the SQL sees {got}, the table holds {want}")
         except Exception as e:
             problems.append(f"{'query; ' if first else ''}insert {iname}; {rn}; query raised {e!r}")
+    # table names that are also names the implementation uses for itself
+    for nm in ('x', 'k', 'v', 'df', 'e', 'ctx', 'self', 'tbl'):
+        try:
+            k = KlongInterpreter()
+            k('.py("klongpy.db")')
+            k('tt::.table([["a" [1 2 3]] ["b" [10 20 30]]])')
+            k(f'db::.db(:{{}},"{nm}",,tt)')
+            r = np.asarray(k(f'db("select a from {nm}")')).reshape(-1).tolist()
+            if r != [1, 2, 3]:
+                problems.append(f'a table registered under the name "{nm}": select a from {nm} gives {r}')
+        except Exception as ex:
+            problems.append(f'a table registered under the name "{nm}": the query raises {type(ex).__name__}: {str(ex)[:70]}')
     # index created / dropped between queries
     try:
         k = fresh()
@@ -236,3 +248,31 @@ def replay_histories(inputs, obl, maxlen=3):
     if problems:
         return dict(confirmed=True, detail=' | '.join(problems))
     return dict(confirmed=False, detail=f"{n} operation sequences up to length {maxlen} agree with the row model")
+
+
+def replay_table_value_ownership(inputs, obl):
+    """a table's rows change only through inserts into THAT table: two tables built from the same column list, a column read out
+    earlier, and the column list itself must not change when an existing key is re-inserted into one indexed table"""
+    from klongpy import KlongInterpreter
+    k = KlongInterpreter()
+    k('.py("klongpy.db")')
+    k('a::[1 2 3];b::[10 20 30];e::[];e::e,,"a",,a;e::e,,"b",,b')
+    k('T::.table(e);U::.table(e)')
+    k('.index(T;["a"])')
+    k('c::T?"b"')
+    before_u, before_c = k('U?"b"').tolist(), k('c').tolist()
+    k('.insert(T;[2 99])')
+    t_b = k('T?"b"').tolist()
+    after_u, after_c, src = k('U?"b"').tolist(), k('c').tolist(), list(k('(e@1)@1'))
+    problems = []
+    if t_b != [10, 99, 30]:
+        problems.append(f"T?b after re-inserting key 2 is {t_b}")
+    if after_u != before_u:
+        problems.append(f"table U received no insert but U?'b' changed from {before_u} to {after_u} (T and U were built from the same column list)")
+    if after_c != before_c:
+        problems.append(f"c::T?'b' read BEFORE the insert changed from {before_c} to {after_c}")
+    if [int(x) for x in src] != [10, 20, 30]:
+        problems.append(f"the column list given to .table changed to {src}")
+    if problems:
+        return dict(confirmed=True, detail='T::.table(e);U::.table(e);.index(T;["a"]);c::T?"b";.insert(T;[2 99]): ' + '; '.join(problems))
+    return dict(confirmed=False, detail='an insert into one table reaches neither another table built from the same columns, nor a column read earlier, nor the column list')
